@@ -233,6 +233,12 @@ func freePort() int {
 // runBinary starts the real helios binary with the configuration and watches the proxy port.
 // Returns exited (within the wait), exit code, whether the proxy port ever accepted a connection, output.
 func runBinary(e *vh.Env, cfg *config.Config, tag string, wait time.Duration) (exited bool, code int, accepted bool, out string) {
+	return runBinaryUntil(e, cfg, tag, wait, false)
+}
+
+// runBinaryUntil is runBinary that may stop early as soon as the proxy port is held by the process (real-time
+// limits are generous upper bounds: a loaded machine must not turn into a verdict).
+func runBinaryUntil(e *vh.Env, cfg *config.Config, tag string, wait time.Duration, stopWhenListening bool) (exited bool, code int, accepted bool, out string) {
 	data, err := yaml.Marshal(cfg)
 	if err != nil {
 		return false, -1, false, "marshal: " + err.Error()
@@ -271,6 +277,12 @@ func runBinary(e *vh.Env, cfg *config.Config, tag string, wait time.Duration) (e
 		}
 		if vh.PidListens(cmd.Process.Pid, cfg.Server.Port) {
 			accepted = true
+			if stopWhenListening {
+				cmd.Process.Kill()
+				<-done
+				b, _ := os.ReadFile(logf.Name())
+				return false, 0, true, string(b)
+			}
 		}
 		time.Sleep(5 * time.Millisecond)
 	}
@@ -390,7 +402,7 @@ func init() {
 				for _, p := range c.Chain {
 					cfg.Plugins.Chain = append(cfg.Plugins.Chain, config.PluginConfig{Name: p.Name, Config: c17ValidConfig(p)})
 				}
-				exited, code, accepted, out := runBinary(e, cfg, "valid", 1500*time.Millisecond)
+				exited, code, accepted, out := runBinaryUntil(e, cfg, "valid", 20*time.Second, true)
 				if exited || !accepted {
 					o.Viol("C17|binary|valid-chain-not-started", fmt.Sprintf("a valid chain did not start a listening proxy: exited=%v code=%d accepted=%v output=%s", exited, code, accepted, trunc(out, 300)), nil)
 					return
@@ -401,12 +413,12 @@ func init() {
 			}
 			cfg.Plugins = c17ChainWithInvalid(c)
 			inv := c17InvalidTable[c.Inv]
-			exited, code, accepted, out := runBinary(e, cfg, fmt.Sprintf("inv%d_%d", c.Inv, c.Idx), 4*time.Second)
+			exited, code, accepted, out := runBinary(e, cfg, fmt.Sprintf("inv%d_%d", c.Inv, c.Idx), 20*time.Second)
 			switch {
 			case accepted:
 				o.Viol("C17|binary|listening-with-invalid-chain|"+inv.Why, fmt.Sprintf("the binary accepted a connection on the proxy port although the chain has %s (exited=%v code=%d)", inv.Why, exited, code), map[string]any{"output": trunc(out, 500)})
 			case !exited:
-				o.Viol("C17|binary|running-with-invalid-chain|"+inv.Why, fmt.Sprintf("the binary was still running after 4 s with %s in the chain", inv.Why), map[string]any{"output": trunc(out, 500)})
+				o.Viol("C17|binary|running-with-invalid-chain|"+inv.Why, fmt.Sprintf("the binary was still running after 20 s with %s in the chain", inv.Why), map[string]any{"output": trunc(out, 500)})
 			case code == 0:
 				o.Viol("C17|binary|exit-zero|"+inv.Why, fmt.Sprintf("the binary exited 0 with %s in the chain", inv.Why), map[string]any{"output": trunc(out, 500)})
 			case strings.Contains(out, "goroutine ") && strings.Contains(out, "panic"):
